@@ -29,6 +29,24 @@ def cases(tier, rng):
         k = rng.choice([4, 4, 5, 6])
         # biased to variable-variable steps, which are the ones that can close a cycle
         seqs.append(tuple(rng.choice(var_pairs) if rng.random() < 0.7 else rng.choice(PAIRS) for _ in range(k)))
+    # steps between compound patterns that alias two variables without ever binding a variable to a compound term
+    # (so still no occurs check): [a | $U] = [a | $V], [$U] = [$V], f($U) = f($V), g($U, a) = g($V, a), ...
+    def patterns(U, V):
+        a, b = atom("a"), atom("b")
+        return [(lst([a], U), lst([a], V)), (lst([U]), lst([V])), (cplx("f", U), cplx("f", V)), (lst([a, b], U), lst([a, b], V)),
+                (cplx("g", U, a), cplx("g", V, a)), (lst([U, a]), lst([V, a])), (lst([cplx("f", U)]), lst([cplx("f", V)]))]
+    VS = [X, Y, Z]
+    comp = [p for U in VS for V in VS if U != V for p in patterns(U, V)]
+    for c1 in comp:
+        for vp in var_pairs:
+            seqs.append((c1, vp)); seqs.append((vp, c1))
+    nc = 2500 if tier == "quick" else 60000
+    for _ in range(nc):
+        k = rng.choice([2, 3, 3, 4])
+        steps = [rng.choice(var_pairs) if rng.random() < 0.75 else rng.choice(PAIRS) for _ in range(k)]
+        for _ in range(rng.choice([1, 1, 2])):
+            steps.insert(rng.randrange(len(steps) + 1), rng.choice(comp))
+        seqs.append(tuple(steps))
     seen = set()
     for s in seqs:
         if s in seen: continue
@@ -42,7 +60,9 @@ def cases(tier, rng):
 
 RULE = ("all sequences of length <= 2 (quick: plus 6000 random of length 3 and 3000 of length 4-6 biased to "
         "variable-variable steps; thorough: all 46656 of length 3 plus 150000 longer) of unifications among $X,$Y,$Z, a, b, 1 "
-        "- no compound terms, so no occurs check is ever needed - each followed by resolving q($X,$Y,$Z). "
+        "- no occurs check is ever needed -, and sequences that mix these with steps between compound patterns aliasing two variables "
+        "([a | $U] = [a | $V], [$U] = [$V], f($U) = f($V), g($U, a) = g($V, a), ... - in correct code these bind variable to variable only), "
+        "each followed by resolving q($X,$Y,$Z). "
         "Relations checked on the implementation's own results: no result diverges or panics; no cycle in the "
         "returned bindings; a last step between two already-aliased variables returns the previous set unchanged. "
         "Non-trivial = at least two variable-variable steps succeeded.")
